@@ -3,7 +3,10 @@ from lib.emit import emit_stream
 
 CHECK = Check(
     "C06",
-    streams=[emit_stream("c06", drv="c06")],
+    streams=[emit_stream("c06", drv="c06"),
+             # eight units of this check's own (Gen/GenC06b.v): maps whose values are structs held BY VALUE that own
+             # pointers, slices and maps (kept out of the shared units: C03's open finding nested_in_map_entry)
+             emit_stream("c06b", drv="c06b", unitsdrv="c06bunits")],
     rule=("generated inspectors of the model's emit units (quick: every third supported unit of the representative shape set + "
           "multi-field structs; thorough: every supported depth<=2 unit) x value variants (pointers nil/set, collections "
           "nil/empty/1/3 elements, nil elements, boundary scalars, empty and multi-byte strings, spare capacity) x {Copy with the "
@@ -12,7 +15,13 @@ CHECK = Check(
           "+ buffer bytes used + growth of the exact buffer (model correspondence) and normal form, the real DeepEqual(source, "
           "copy), source re-read, address-range overlap of every slice array incl. capacity / map / pointer target of source and "
           "copy, then mutation of every mutable location of the copy (source re-read) and of the source (copy re-read); "
-          "distinct = distinct input text, all non-trivial."),
+          "distinct = distinct input text, all non-trivial. Stream c06b: the same cases on eight own units whose maps hold "
+          "structs BY VALUE that own memory (map[K]S with S holding pointers to scalars / strings / structs / slices / maps "
+          "/ bytes, slices of scalars, strings, structs and pointers, maps, nested by-value structs with such members; as "
+          "named root map, field, pointer field, field of a named map type, inner map of a root map, below slice elements "
+          "and nested struct fields; float, integer and string keys), on the value variants plus a second pass whose "
+          "collections take their entries further along the element's variants (several elements with spare capacity, "
+          "two-entry maps, nil next to set members inside map values)."),
     assumptions=["an empty []byte prints the same whether nil or not (whether a bufferized empty byte slice is nil depends on the "
                  "buffer being nil at that moment, i.e. on map iteration order)",
                  "sharing is judged natively by the harness (addresses as overlap classes, mutation); strings are immutable and "
